@@ -1,3 +1,4 @@
+@property
 def spec(self):
     if self.delay is not None:
         return self.synapse.delay
